@@ -87,3 +87,16 @@ pub struct Gen1<T: ssz::Encode + ssz::Decode> {
     pub a: T,
     pub b: u8,
 }
+
+#[derive(Encode, Decode)]
+pub struct BitsV {
+    pub a: ssz::BitVector<typenum::U9>,
+    pub c: u8,
+}
+
+#[derive(Encode)]
+pub struct BitsL {
+    pub a: ssz::BitVector<typenum::U9>,
+    pub b: ssz::BitList<typenum::U16>,
+    pub c: u8,
+}
